@@ -124,6 +124,18 @@ def scenario(draw) -> Dict[str, Any]:
             items.append((off - draw(st.sampled_from([1, 300, 900])), 0, {'kind': 'sighting', 'svc': kk,
                                                                          'which': ['ptr', 'srv', 'txt', 'addr']}))
         items.append((off, order, ev))
+    three_paths = how != 'close' and draw(st.integers(0, 4)) == 0
+    if three_paths:
+        # all three answer paths hold one record of the withdrawn service at the withdrawal: an aggregated query queues it, a
+        # single-question query multicasts it at once (the host hears its own packet: a sighting), and another aggregated query
+        # within the next second puts it in the one-second protection queue
+        kk = items[0][2]['svc'] if items[0][2].get('kind') == 'unregister' else 0
+        mk = lambda qs, c: {'kind': 'query', 'qs': qs, 'ka': [], 'probe': False, 'client': c, 'family': 'v4', 'port': 5353, 'sock': 0,
+                            'id': 90 + c, 'tc': False}
+        d0 = draw(st.sampled_from([-70, -60, -45]))
+        items.append((d0, 0, mk([['type', kk, 0, 12, False], ['inst', kk, 0, 33, False], ['host', kk, 0, 1, False]], 0)))
+        items.append((d0 + 5, 0, mk([['inst', kk, 0, 33, False]], 1)))
+        items.append((d0 + 15, 0, mk([['type', kk, 0, 12, False], ['inst', kk, 0, 33, False]], 2)))
     items.sort(key=lambda x: (x[0], x[1]))
     base = 1600
     events = []
@@ -134,8 +146,10 @@ def scenario(draw) -> Dict[str, Any]:
         ev['off'] = off
         prev = off
         events.append(ev)
-    jitter = {'seed': draw(st.integers(0, 10**6))} if draw(st.integers(0, 2)) else \
+    jitter = {'seed': draw(st.integers(0, 10**6))} if draw(st.integers(0, 2)) and not three_paths else \
         {'explicit': draw(st.lists(st.sampled_from([0, 100, 50]), min_size=1, max_size=4))}
+    if three_paths:
+        jitter = {'explicit': [100, 100, 100, 100]}      # the aggregated groups wait their full 120 ms
     return {'jitter': jitter, 'socks': 'v4', 'services': services, 'settle_ms': 1500, 'events': events, 'tail_ms': 5000,
             'pre_updates': pre_updates, 'peer': draw(st.sampled_from([False, True]))}
 
